@@ -36,6 +36,13 @@ func (svr *ComputeServer) BasicCompute(
 		err error
 	)
 	opts := []basic.ComputeOpt{}
+	if request.Params == nil {
+		return nil, status.Error(codes.InvalidArgument, "missing params")
+	}
+	if request.Params.MaxIterations != 0 {
+		opts = append(opts,
+			basic.WithMaxIterations(int(request.Params.MaxIterations)))
+	}
 	if lt, ok := svr.core.StoredTrustMatrices.Load(request.Params.LocalTrustId); ok {
 		_ = lt.LockAndRun(func(c1 *sparse.Matrix, timestamp *big.Int) error {
 			logger.Info().
